@@ -19,13 +19,13 @@ TECHNIQUE = "per-variable differential between the transpiled model and an evalu
 RULE = ("documents of 3 kinds: (table) the exhaustive depth-2 table outer x position x inner over + - * / ^ MOD and unary minus, IF/THEN/ELSE with "
         "compound comparison operands, AND/OR chains, NOT(...), each built-in (ABS MIN MAX INT SQRT EXP LN LOG10 SIN COS TAN SAFEDIV ROUND PERCENT "
         "STEP RAMP SINWAVE COSWAVE PULSE) with compound arguments, in 4 spellings; (random) seeded trees to depth 5 in 2 spellings with 7 variable-name shapes "
-        "(plain, underscore, space, quoted, upper, mixed case, digit suffix); comparisons of exactly equal operands and literals with up to 10 significant digits are included; every third document repeats all variables with the same equation texts and other constant values in two named modules (names resolve inside their own model); (loud) one out-of-grammar equation per document: unknown function, "
+        "(plain, underscore, space, quoted, upper, mixed case, digit suffix); comparisons of exactly equal operands and literals with up to 10 significant digits are included; every fourth equation is also carried by a flow marked <non_negative/> (clamped at zero); every third document repeats all variables with the same equation texts and other constant values in two named modules (names resolve inside their own model), each with an input wired to a root variable by a <connect>, half of them with the sub-models listed before the root model; (loud) one out-of-grammar equation per document: unknown function, "
         "dangling operator, unbalanced parentheses, unknown identifier, keyword misuse. programs = documents compiled; distinct_nontrivial = "
         "distinct (outer, position, inner) / tree digests whose value changes if compound operands are pasted without parentheses.")
 ASSUMPTIONS = ["^ binds tighter than unary minus, which binds tighter than * / MOD; chains of ^ are always printed with explicit parentheses",
                "MOD is judged for positive operands only; ROUND away from .5; STEP(h,t0)=h for t>=t0; RAMP(s,t0)=s*(t-t0) for t>t0",
                "boolean conditions are generated as OR-of-AND chains of comparisons (the grammar has no parenthesised boolean groups)"]
-REQUIRED = {"documents_with_modules": 5, "documents_compiled": 20, "variables_compared": 1000, "loud_cases": 8, "ir_nodes_seen": 1000}
+REQUIRED = {"non_negative_flows_compared": 200, "wired_inputs_checked": 5, "documents_with_modules": 5, "documents_compiled": 20, "variables_compared": 1000, "loud_cases": 8, "ir_nodes_seen": 1000}
 BUDGET_S = {"quick": 110, "thorough": 1500}
 
 CLOCKVAR = ("clock var", "TIME*2 + 1", lambda t: t * 2 + 1)     # a variable that moves with time (INIT / DELAY of a reference)
@@ -520,6 +520,7 @@ def run_case(case):
     printed = {}
     from BPTK_Py.sdcompiler.parsers.smile.grammar import grammar, SMILEVisitor
     kept = []
+    nonneg = []
     for (vn, key, tree, sidx) in eqs:
         try:
             txt = XM.pr(tree, styles[sidx])
@@ -536,11 +537,16 @@ def run_case(case):
         printed[vn] = txt
         kept.append((vn, key, tree, sidx))
         els.append(dict(kind="aux", name=vn, eqn=txt))
+        if len(kept) % 4 == 0:
+            # the same equation as a flow marked <non_negative/>: XMILE semantics clamp it at zero
+            els.append(dict(kind="flow", name="nf_" + vn, eqn=txt, non_negative=True))
+            nonneg.append((vn, key, tree, sidx))
     eqs = kept
     # every third document repeats all its variables, with the same equation texts but other constant values, in two named
     # modules: an unqualified name resolves inside the model that contains the equation
     scopes = [("", vals)]
     modules = None
+    connects = {}
     if case.get("modules"):
         modules = {}
         for mname, (fa, fb) in (("North", (1.5, 0.25)), ("South Wing", (0.5, 1.0))):
@@ -548,11 +554,16 @@ def run_case(case):
             mvals["alpha_twin"] = mvals["alpha"]
             mels = [dict(kind="aux", name=n, eqn=(repr(mvals[n]) if mvals[n] >= 0 else "0 - %r" % abs(mvals[n]))) for n, v in CONSTS] + \
                    [dict(kind="aux", name=CLOCKVAR[0], eqn=CLOCKVAR[1])] + [dict(kind="aux", name=vn, eqn=printed[vn]) for (vn, key, tree, sidx) in eqs]
+            # a module input wired to a variable of the root model by a <connect>, and a variable that uses it
+            mels.append(dict(kind="aux", name="wired in", access="input", eqn="100"))
+            mels.append(dict(kind="aux", name="wired_probe", eqn="wired_in * 2 - 1"))
             modules[mname] = mels
             scopes.append((sname(mname) + ".", mvals))
+            connects[mname] = [("%s.wired_in" % mname.replace(" ", "_"), "alpha")]
         counters["documents_with_modules"] = 1
     try:
-        cls, src, dest = XM.compile_and_load(XM.document(mod, RUN, els, modules=modules), "xm", mod)
+        # (every other document with modules lists the sub-models BEFORE the root model that declares and wires them)
+        cls, src, dest = XM.compile_and_load(XM.document(mod, RUN, els, modules=modules, connects=connects, modules_first=bool(modules) and case.get("seed", case.get("part", 0)) % 2 == 1), "xm", mod)
         m = cls()
     except Exception as e:
         cleanup(mod)
@@ -565,7 +576,31 @@ def run_case(case):
     w = None
     groups = {}
     try:
-        for (scope, svals), (vn, key, tree, sidx) in [(sc, e) for sc in scopes for e in eqs]:
+        for (vn, key, tree, sidx) in nonneg:
+            for t in TIMES:
+                try:
+                    ref, dist = ev_x(tree, vals, t)
+                    if dist < 1e-6 or isinstance(ref, bool) or abs(ref) < 1e-6:
+                        continue
+                except (X.IllConditioned, OverflowError, ZeroDivisionError, ValueError):
+                    continue
+                got = m.equation(sname("nf_" + vn), t)
+                counters["non_negative_flows_compared"] = counters.get("non_negative_flows_compared", 0) + 1
+                if not X.close(got, max(0.0, ref), rel=1e-9, ab=1e-10):
+                    w = dict(kind="value", key="non-negative-flow", scope="", equation=printed[vn], style=STYLES[sidx], tree=X.show(tree), t=t, got=float(got), expected=max(0.0, ref),
+                             note="a flow marked <non_negative/> with this equation")
+                    break
+            if w:
+                break
+        for (scope, _sv) in ([] if w else scopes[1:]):
+            # the wired input is the root's alpha
+            got = m.equation(scope + "wiredProbe", 1.5)
+            counters["wired_inputs_checked"] = counters.get("wired_inputs_checked", 0) + 1
+            if not X.close(got, vals["alpha"] * 2 - 1, rel=1e-9, ab=1e-10):
+                w = dict(kind="value", key="module-input-wired-by-connect", scope=scope, equation="wired_in * 2 - 1", style="plain", tree="(wired_in * 2 - 1)", t=1.5,
+                         got=float(got), expected=vals["alpha"] * 2 - 1)
+                break
+        for (scope, svals), (vn, key, tree, sidx) in ([] if w else [(sc, e) for sc in scopes for e in eqs]):
             for t in TIMES:
                 try:
                     ref, dist = ev_x(tree, svals, t)
